@@ -250,7 +250,8 @@ impl<'a, T> Index<usize> for Col<'a, T> {
     /// assert_eq!(col[3], 0);
     /// ```
     fn index(&self, idx: usize) -> &Self::Output {
-        let pos = idx * (1 + self.skip);
+        // a wrapped product could land back inside the slice
+        let pos = idx.checked_mul(1 + self.skip).expect("column index out of bounds");
         &self.v[pos]
     }
 }
@@ -362,7 +363,8 @@ impl<'a, T> Index<usize> for ColMut<'a, T> {
     /// assert_eq!(col[3], 0);
     /// ```
     fn index(&self, idx: usize) -> &Self::Output {
-        let pos = idx * (1 + self.skip);
+        // a wrapped product could land back inside the slice
+        let pos = idx.checked_mul(1 + self.skip).expect("column index out of bounds");
         &self.v[pos]
     }
 }
@@ -378,7 +380,8 @@ impl<'a, T> IndexMut<usize> for ColMut<'a, T> {
     /// col[3] = 42;
     /// ```
     fn index_mut(&mut self, idx: usize) -> &mut Self::Output {
-        let pos = idx * (1 + self.skip);
+        // a wrapped product could land back inside the slice
+        let pos = idx.checked_mul(1 + self.skip).expect("column index out of bounds");
         &mut self.v[pos]
     }
 }
